@@ -135,6 +135,14 @@ def run(ck: Check, prog: Program) -> None:
                 ok = how == 'get' and (dflt is None or (isinstance(dflt, ast.Constant) and dflt.value is None))
                 why = 'the writer omits it when None, so the reader must default to None'
             elif mode == 'iff-truthy':
+                if isinstance(dflt, ast.Name):
+                    # a local bound once, in this call, to a fresh empty container (`no_params = list()`)
+                    from ..util import single_defs as _sd
+                    _v = _sd(fj).get(dflt.id)
+                    if isinstance(_v, ast.Call) and dotted(_v.func) in ('list', 'tuple', 'dict') and not _v.args and not _v.keywords:
+                        dflt = ast.List(elts=[], ctx=ast.Load())
+                    elif isinstance(_v, (ast.List, ast.Tuple, ast.Dict)):
+                        dflt = _v
                 ok = how == 'get' and dflt is not None and (
                     (isinstance(dflt, (ast.List, ast.Tuple, ast.Dict)) and not getattr(dflt, 'elts', getattr(dflt, 'keys', None))) or
                     (isinstance(dflt, ast.Constant) and dflt.value is None))
